@@ -334,7 +334,7 @@ func runProtocol(kc *kernelCtx, blocks []*Block, only string, want map[string]bo
 		if on("C14") {
 			pc.p9BlockingWaits(s)
 		}
-		if on("C07") || on("C05") || on("C06") {
+		if on("C07") || on("C05") || on("C06") || on("C03") || on("C14") {
 			pc.p10LockOrder(s)
 		}
 		if on("C01") || on("C02") || on("C05") || on("C13") {
